@@ -18,7 +18,7 @@ RULE = (
     "the local fs, D = LocalHashFileDB/md5-dos2unix (legacy), X = LocalHashFileDB/sha256 (migration target) - "
     "a per-history choice between no hash-state and one real State database shared by all four stores (as in a "
     "DVC repository), and a pool of 2-4 materialised trees/files drawn per history (with modest probability a file just over "
-    "1 MiB whose first 1 MiB read chunk is binary and the rest CRLF text, or the opposite mix; nesting, duplicate contents, empty files, "
+    "1 MiB whose first 1 MiB read chunk is binary and the rest CRLF text, or the opposite mix; nesting, duplicate contents, empty files, drawn file modes 0o644/0o755/0o700, "
     "odd/non-ASCII names, CRLF text). Rules (<= 12 per history): stage+transfer (shallow or not), "
     "build without transfer (stage_only), rewrite of a pool file with another pool file's content under a "
     "harness clock step (equal contents at several paths; hard-linked files are replaced, not written through), "
@@ -128,6 +128,7 @@ class C01Machine(TraceMachine):
         self.labels = set()
         self.saw_dir = False
         self.temps = 0
+        self.fmode = {}         # pool file path -> drawn mode
         self.big = set()        # contents of the mixed > 1 MiB pool files
         self.leftovers = [{} for _ in STORES]  # per store: {oid: planted bytes} still outstanding
         self.listings = []      # canonical listing bytes of the pool trees (md5 / md5-dos2unix child ids)
@@ -145,9 +146,10 @@ class C01Machine(TraceMachine):
             self.state.close()
             self.state = None
 
-    @initialize(pool=_pool(), state=st.sampled_from([False, True, True]))
+    @initialize(pool=_pool(), state=st.sampled_from([False, True, True]),
+                modes=st.lists(st.sampled_from([0o644, 0o644, 0o755, 0o700]), max_size=8))
     @traced
-    def init(self, pool, state=False):
+    def init(self, pool, state=False, modes=()):
         if state and self.state is None:
             # one real State database shared by every store of the history, as in a DVC repository
             self.state = ops.make_state(self.dir, os.path.join(self.dir, "state"))
@@ -177,6 +179,13 @@ class C01Machine(TraceMachine):
                 self.pool.append((p, False, data))
                 self.files.append([p, data, i, None])
         self.file_bytes = {f[1] for f in self.files}
+        # workspace files carry a drawn mode (executable owner bit = Meta.isexec)
+        for k, f in enumerate(self.files):
+            if modes:
+                self.fmode[f[0]] = modes[k % len(modes)]
+                os.chmod(f[0], self.fmode[f[0]])
+        if any(m & 0o100 for m in self.fmode.values()):
+            self.labels.add("pool:executable-file")
 
     # ---- rules ---------------------------------------------------------------------------
     @rule(store=st.integers(0, 2), item=st.one_of(st.just(-1), st.integers(0, 7), st.integers(0, 7)),
@@ -239,6 +248,7 @@ class C01Machine(TraceMachine):
             os.chmod(path, 0o644)
         with open(path, "wb") as fobj:
             fobj.write(new)
+        os.chmod(path, self.fmode.get(path, 0o644))
         os.utime(path, ns=(st0.st_atime_ns, st0.st_mtime_ns + step))
         st1 = os.stat(path)
         if (st1.st_ino, st1.st_mtime, st1.st_size) == (st0.st_ino, st0.st_mtime, st0.st_size):
